@@ -21,6 +21,9 @@ import SamVerif.Drive.C16
 import SamVerif.Drive.C02
 import SamVerif.Drive.C01
 import SamVerif.Drive.C09
+import SamVerif.Drive.C07
+import SamVerif.Drive.C04
+import SamVerif.Drive.C03
 open SamVerif.Drive
 
 def dispatch (line : String) : String :=
@@ -44,6 +47,9 @@ def dispatch (line : String) : String :=
     else if k.startsWith "c02." then C02.handle k args impl
     else if k.startsWith "c01." then C01.handle k args impl
     else if k.startsWith "c09." then C09.handle k args impl
+    else if k.startsWith "c07." then C07.handle k args impl
+    else if k.startsWith "c04." then C04.handle k args impl
+    else if k.startsWith "c03." then C03.handle k args impl
     else "bad-op"
   | _ => "bad-op"
 
